@@ -90,7 +90,7 @@ def insn_rotated(spec, ls):
         ctxkey = rng.choice([('v6-pmsa-sec', 'off'), ('v6-pmsa', 'off'), ('v5-pmsa', 'off')])
         ctx = ls.ctx(ctxkey)
         e = rng.randrange(2)
-        addr = rng.choice([0x100, 0x1000, 0x3F8, 0x7FE0, 0x11F00]) + rng.randrange(8)
+        addr = rng.choice([0x100, 0x1000, 0x3F8, 0x7FE0, 0x11F00, 0x8000]) + rng.randrange(8)
         imm = rng.choice([0, 1, 2, 3, 4, 5, 7, 8, 0x101])
         index = rng.choice([0, 1, 2, 3, 4, 6, 0x103])
         if am in ('off', 'pre'):
@@ -117,8 +117,7 @@ def insn_rotated(spec, ls):
             ls.report('C13|insn-rotated-load|did-not-complete|%s' % name, dict(desc, outcome=str((k, sig))), desc)
             continue
         ls.bump('insn_rotated_loads')
-        dev = 'mem0' if addr < 0x8000 else 'mem1'
-        o = (addr & ~3) - (0 if dev == 'mem0' else 0x10000)
+        dev, o = dev_off(addr & ~3)
         aligned = int.from_bytes(pre[dev][o:o + 4], 'big' if e else 'little')
         rot = 8 * (addr & 3)
         want = ((aligned >> rot) | (aligned << (32 - rot))) & 0xFFFFFFFF
@@ -131,12 +130,21 @@ def insn_rotated(spec, ls):
             why = 'loaded %#x, the rotated aligned word is %#x' % (post['R4usr'], want)
         elif wb is not None and post['R0usr'] != wb & 0xFFFFFFFF:
             why = 'base written back as %#x, expected %#x' % (post['R0usr'], wb & 0xFFFFFFFF)
-        elif any(pre[d] != post[d] for d in ('mem0', 'mem1', 'mem2')):
+        elif any(pre[d] != post[d] for d in MEMKEYS):
             why = 'a load changed memory'
         if why:
             ls.report('C13|insn-rotated-load|%s|E%d|lane%d' % (name, e, addr & 3), dict(desc, why=why), desc)
 
 
+def dev_off(a):
+    from vf import scen
+    for i, (b, e_) in enumerate(scen.MEMS):
+        if b <= a < e_:
+            return 'mem%d' % i, a - b
+    raise KeyError(hex(a))
+
+
+MEMKEYS = ('mem0', 'mem1', 'mem2', 'mem3')
 LS_FAMILY = ('ls', 'ldm', 'stm', 'push', 'pop', 'ldm_eret', 'ldm_user', 'stm_user', 'srs', 'rfe', 'tbb', 'ldrex', 'strex')
 
 
@@ -252,7 +260,7 @@ def insn_roundtrip(spec):
         ctx = ls.ctx(ctxkey)
         e = rng.randrange(2)
         off = rng.randrange(8)
-        base_addr = rng.choice([0x100, 0x1000, 0x3F8, 0x7FE0, 0x11F00, 0x11000]) + off
+        base_addr = rng.choice([0x100, 0x1000, 0x3F8, 0x7FE0, 0x11F00, 0x11000, 0x8000, 0x8000]) + off
         if offk == 'imm':
             imm = rng.choice([0, 0, 4, 8, 1, 3, 0xFC]) if setter is not None else 0
             if setter is _imm8:
@@ -315,12 +323,11 @@ def insn_roundtrip(spec):
                     want += wv.to_bytes(4, 'big' if e else 'little')
             else:
                 want += stored.to_bytes(size, 'big' if e else 'little')
-            dev = 'mem0' if target < 0x8000 else 'mem1'
-            o = target if dev == 'mem0' else target - 0x10000
+            dev, o = dev_off(target)
             if post[dev][o:o + size] != bytes(want):
                 why = 'memory holds %s, expected %s' % (post[dev][o:o + size].hex(), bytes(want).hex())
             else:
-                for dv in ('mem0', 'mem1', 'mem2'):
+                for dv in MEMKEYS:
                     a, b = pre[dv], post[dv]
                     if dv == dev:
                         a = a[:o] + a[o + size:]
